@@ -337,6 +337,11 @@ func runC04(c *core.Ctx) {
 	c.Rule("R8", "byte carriers and transport wrappers under the codecs preserve content and order (shared with C14-R2/R5, C17-R1/R2)", 4)
 	importObligations(c, runC14, "R8", func(o *core.Obligation) bool { return o.Rule == "R2" || o.Rule == "R5" })
 	importObligations(c, runC17, "R8", func(o *core.Obligation) bool { return o.Rule == "R1" || o.Rule == "R2" })
+	// an encoded frame stays intact while it is queued: its buffer has one owner (C10)
+	c.Rule("R9", "a queued frame's buffer is private and recycled once, after it was written (shared with C10-R1/R3/R4/R6/R8)", 3)
+	importObligations(c, runC10, "R9", func(o *core.Obligation) bool {
+		return o.Rule == "R1" || o.Rule == "R3" || o.Rule == "R4" || o.Rule == "R6" || o.Rule == "R8"
+	})
 
 	// ---- R5 delimiter match
 	for _, fc := range codecs {
@@ -1007,7 +1012,6 @@ func sameOrigin(a, b ssa.Value) bool {
 	}
 	return false
 }
-
 
 // admitsValue: can constructor fn return normally when its int parameter prm has the value k (other: a value
 // different from every constant prm is compared with)? Conditions that do not depend on prm alone are
